@@ -1,5 +1,6 @@
 /* C03: real task_group on the real dispatcher loop, one model thread.
  * SCEN 1: run x N, wait [, reuse: run, wait]   SCEN 2: run x N + run_and_wait   SCEN 3: nested group inside a task
+ * SCEN 4: a task of the outer group throws inside the nested wait of an inner group (cancellation must reach the child groups)
  * Which body invocations throw is symbolic (THROW mask). */
 #include "w.h"
 #include "vp.h"
@@ -12,13 +13,15 @@ u32 THROW;                       /* bit per body id (see bit()) */
 int runs[128];
 u8 ti_user;                      /* type token of the user exception */
 #define MAXT 4
-u8* thrown[MAXT]; int thrown_grp[MAXT]; int nthrown; int grp_threw[2];
-int wait_threw[2], wait_status[2], wait_seen[2];
-u8* caught_at_wait[2];
-static int bit(u32 i) { return i == 100 ? 7 : (i >= 10 ? 4 + (int)(i - 10) : (int)i); }
+u8* thrown[MAXT]; int thrown_grp[MAXT]; int nthrown; int grp_threw[3];
+int wait_threw[3], wait_status[3], wait_seen[3];
+u8* caught_at_wait[3];
+static int bit(u32 i) { return i == 100 ? 7 : i == 20 ? 5 : (i >= 10 ? 4 + (int)(i - 10) : (int)i); }
 static int grp(u32 i) {
 #if SCEN == 3
   return i >= 10 && i < 100;      /* inner group = 1 */
+#elif SCEN == 4
+  return i == 20 ? 2 : i == 10 ? 1 : 0;
 #else
   return i == 100;                /* reuse phase counted as group slot 1 */
 #endif
@@ -30,8 +33,8 @@ void vp_body(u32 i) {
   runs[i]++;
   VP_CHECK(!wait_seen[g], "a body of the group started after the wait for that group had returned");
   VP_CHECK(!grp_threw[g], "a body started although an exception of the same group had already been captured (group not cancelled)");
-#if SCEN == 3
-  if (g == 1) VP_CHECK(!grp_threw[0], "a body of the nested group started although the enclosing group had already captured an exception");
+#if SCEN == 3 || SCEN == 4
+  if (g >= 1) VP_CHECK(!grp_threw[0], "a body of a nested group started although the enclosing group had already captured an exception");
 #endif
 #if SCEN == 1
   if (i == 100) VP_CHECK(wait_seen[0] == 1, "reuse body ran before the first wait returned");
@@ -56,11 +59,13 @@ void vp_wait_result(u32 g, u32 st, u32 threw, u32 cancelled_after) {
     int ok = 0;
     for (int k = 0; k < MAXT; k++) if (k < nthrown && thrown_grp[k] == (int)g && thrown[k] == caught_at_wait[g]) ok = 1;
     VP_CHECK(ok, "the exception rethrown by wait is not one thrown by the group's work");
+  } else if (SCEN == 4 && g >= 1 && grp_threw[0]) {
+    VP_CHECK(st == 2, "wait of a nested group whose enclosing group was cancelled by an exception must report canceled");
   } else {
     VP_CHECK(st == 1, "wait without exception/cancellation must report complete");
   }
   VP_CHECK(!cancelled_after, "the group's context is still cancelled after wait (group not reusable)");
-  VP_CHECK(vp_pool_left() == 0 || (SCEN == 3 && g == 1), "tasks left in the pool when the wait returned");
+  VP_CHECK(vp_pool_left() == 0 || ((SCEN == 3 || SCEN == 4) && g >= 1), "tasks left in the pool when the wait returned");
   grp_threw[g] = 0;   /* the group is reusable from here on */
 }
 int main(void) {
@@ -70,6 +75,8 @@ int main(void) {
 #define TMASK ((1u << (N + 1)) - 1)
 #elif SCEN == 3
 #define TMASK (3u | (((1u << N) - 1) << 4))
+#elif SCEN == 4
+#define TMASK (2u | 4u | 16u | 32u)
 #else
 #define TMASK 1u
 #endif
@@ -88,6 +95,10 @@ int main(void) {
   vp_tg_nested(N, CATCH);
   VP_ASSERT(wait_seen[1] <= 1, "inner wait");
   for (int i = 0; i < 2; i++) VP_ASSERT(runs[i] == 1 || nthrown > 0, "a task was skipped although nothing was cancelled");
+#elif SCEN == 4
+  vp_tg_outer_throw(0);
+  VP_ASSERT(wait_seen[1] == 1 && wait_seen[2] == 1, "inner waits");
+  if (nthrown == 0) VP_ASSERT(runs[1] == 1 && runs[2] == 1 && runs[10] == 1 && runs[20] == 1, "a task was skipped although nothing was cancelled");
 #endif
 #if SCEN != 0
   VP_ASSERT(wait_seen[0] == 1, "the wait must return exactly once");
@@ -96,7 +107,7 @@ int main(void) {
   VP_ASSERT(vp_exc_destroyed == vp_exc_thrown, "an exception object was leaked or destroyed twice");
   VP_ASSERT(n_eptr_alloc == n_eptr_free, "tbb_exception_ptr storage leaked or freed twice");
   VP_ASSERT(n_task_alloc == n_task_free, "a task object was leaked or released twice");
-  VP_ASSERT(vp_rethrows == wait_threw[0] + wait_threw[1], "a captured exception is rethrown exactly once per wait that reports it");
+  VP_ASSERT(vp_rethrows == wait_threw[0] + wait_threw[1] + wait_threw[2], "a captured exception is rethrown exactly once per wait that reports it");
 #endif
   VP_REACHED();
   return 0;
